@@ -35,6 +35,8 @@ def shards(tier, seed):
     budget = 45 if tier == 'quick' else 540
     _out = [{'kind': 'random', 'count': per, 'budget_s': budget, 'max_g': 10 if tier == 'quick' else 24}
             for _ in range(16)]
+    _out.append({'kind': 'deep', 'count': 2 if tier == 'quick' else 20, 'budget_s': budget,
+                 'depths': netgen.DEEP_QUICK if tier == 'quick' else netgen.DEEP_THOROUGH})
     if tier == 'thorough':
         _out.append({'kind': 'suite', 'select': ['tests/cirbo/core', 'tests/cirbo/minimization'], 'budget_s': 900})
     return _out
@@ -463,7 +465,7 @@ def check_case(case, ctx):
     except Exception as e:
         ctx.count('build_failed:' + type(e).__name__)
         return
-    for l in list(net.gates):
+    for l in (list(net.gates) if len(net.gates) <= 60 else rng.sample(list(net.gates), 15)):
         new = 'RN_' + l
         if any(len(net.gates[u][1]) != len(set(net.gates[u][1])) and net.gates[u][1].count(l) > 1 for u in users.get(l, [])):
             ctx.count('rename:dup_operand_user')
@@ -640,6 +642,10 @@ def gen_case(rng, spec):
         types = ['LNOT', 'RNOT', 'LIFF', 'RIFF', 'LT', 'GT', 'LEQ', 'GEQ', 'AND', 'OR', 'XOR', 'NOT']
     net = netgen.rand_net(rng, shape=shape, max_in=4, max_g=spec.get('max_g', 10), max_arity=4, types=types,
                           p_repeat_operand=rng.choice([0.2, 0.4]) if rng.random() < 0.4 else None)
+    if spec.get('kind') == 'deep':
+        return {'kind': 'random', 'shape': 'deep', 'net': netgen.deep_description(rng, spec['depths']),
+                'rseed': rng.getrandbits(32), 'history': None, 'shuffle': False, 'block': rng.random() < 0.5,
+                'cofactors': 6, 'slices': 3}
     return {'kind': 'random', 'shape': shape, 'net': netgen.describe(net), 'rseed': rng.getrandbits(32),
             'history': rng.getrandbits(32) if rng.random() < 0.4 else None,
             'shuffle': rng.random() < 0.25, 'block': rng.random() < 0.4, 'cofactors': 20, 'slices': 5}
